@@ -206,6 +206,8 @@ def run_case(i, tier, seed):
     for f in contracts.drain():
         violations.append({"what": f"contract {f['contract']} failed", "detail": f["detail"]})
     obs["contract_evals"] = sum(contracts.EVALS.values())
+    obs["contracts_ok"] = int(contracts.ok())  # evaluated, or not attachable at all (listed in the sample)
+    obs["contracts_unavailable"] = len(contracts.UNAVAILABLE)
     contracts.EVALS.clear()
     return {"sig": sigs, "evals": obs["selections"], "violations": violations, "obs": obs, "sample": sample}
 
